@@ -853,6 +853,28 @@ Proof.
            specialize (Hfail (Z.of_nat (S k1)) HJ ltac:(lia)). rewrite Nat2Z.id in Hfail. cbn [nth] in Hfail. lia.
       * intros i Hi. apply in_map_iff in Hi. destruct Hi as [k0 [<- Hk0]]. apply in_seq in Hk0. lia.
 Qed.
+
+(* ---- the getters of the steps: the long leg is the last leg, the control vertex the head of the first leg; set_center on the empty graph ---- *)
+Lemma nth_pred_last {A} (d : A) : forall l, nth (length l - 1) l d = last l d.
+Proof.
+  induction l as [|a l IH]; [reflexivity|]. destruct l as [|b l]; [reflexivity|]. change (last (a :: b :: l) d) with (last (b :: l) d). rewrite <- IH.
+  replace (length (a :: b :: l) - 1)%nat with (S (length (b :: l) - 1)) by (cbn [length]; lia). reflexivity.
+Qed.
+Theorem gen_q_get_long_leg legs : (3 <= length legs)%nat -> py_Q_get_long_leg legs = FRet (last legs []).
+Proof.
+  intros H. unfold py_Q_get_long_leg, py_Q_is_empty_legs. assert (E : (Z.of_nat (length legs) <? 3) = false) by lia. rewrite E.
+  assert (EI : idx_ok legs (Z.of_nat (length legs) - 1) = true) by (unfold idx_ok, py_index; assert (E1 : (Z.of_nat (length legs) - 1 <? 0) = false) by lia; rewrite E1; assert (E2 : ((0 <=? Z.of_nat (length legs) - 1) && (Z.of_nat (length legs) - 1 <? Z.of_nat (length legs))) = true) by lia; rewrite E2; reflexivity). rewrite EI. f_equal.
+  rewrite (list_get_nth [] legs) by (try exact EI; lia). replace (Z.to_nat (Z.of_nat (length legs) - 1)) with (length legs - 1)%nat by lia.
+  apply nth_pred_last.
+Qed.
+Theorem gen_q_get_long_leg_rejects legs : (length legs < 3)%nat -> py_Q_get_long_leg legs = FRaised (EUser "MorphFactoryException").
+Proof. intros H. unfold py_Q_get_long_leg, py_Q_is_empty_legs. assert (E : (Z.of_nat (length legs) <? 3) = true) by lia. rewrite E. reflexivity. Qed.
+Theorem gen_q_set_center legs v : py_Q_set_center legs v = match legs with [] => FRet [[v]] | _ => FRaised (EUser "MorphFactoryException") end.
+Proof. destruct legs; reflexivity. Qed.
+Theorem gen_q_get_one_vertex c a l rest : py_Q_get_one_vertex (c :: (a :: l) :: rest) = if (length rest <? 1)%nat then FRaised (EUser "MorphFactoryException") else FRet a.
+Proof. destruct rest as [|r rest]; [reflexivity|]. unfold py_Q_get_one_vertex, py_Q_is_empty_legs. cbn [length]. assert (E : (Z.of_nat (S (S (S (length rest)))) <? 3) = false) by lia. rewrite E.
+  assert (EI : idx_ok (c :: (a :: l) :: r :: rest) 1 = true) by (unfold idx_ok, py_index; cbn [length]; change (1 <? 0) with false; cbv iota; assert (E2 : ((0 <=? 1) && (1 <? Z.of_nat (S (S (S (length rest)))))) = true) by lia; rewrite E2; reflexivity).
+  rewrite EI, (list_get_nth [] _ 1) by (try exact EI; lia). reflexivity. Qed.
 Print Assumptions gen_q_anti_commutates.
 Print Assumptions gen_q_max_connected.
 Print Assumptions gen_q_append_to_queue.
@@ -876,3 +898,7 @@ Print Assumptions gen_q_lit.
 Print Assumptions gen_q_get_pq.
 Print Assumptions gen_q_restore_delayed.
 Print Assumptions gen_q_append_delayed.
+Print Assumptions gen_q_get_long_leg.
+Print Assumptions gen_q_get_long_leg_rejects.
+Print Assumptions gen_q_set_center.
+Print Assumptions gen_q_get_one_vertex.
